@@ -62,6 +62,8 @@ def sandbox(tag=None):
             os.symlink(os.path.join(REPO, name), link)
     os.chdir(d)
     os.environ.setdefault("MPLBACKEND", "Agg")
+    import warnings
+    warnings.filterwarnings("ignore")
     if REPO not in sys.path:
         # the editable install already maps `src` to /repo; this makes VERIF_REPO work too
         sys.path.insert(0, REPO)
